@@ -35,6 +35,7 @@ def check(run):
         run.guard("C12.3.party", cfg, lambda: rule_party(run, F, cfg))
         run.guard("C12.4.single-construction", cfg, lambda: rule_single(run, F, cfg))
         run.guard("C12.5.url-scanner-tables", cfg, lambda: rule_scanner(run, F, cfg))
+        run.guard("C12.5.url-scanner-tables", cfg + "/brackets", lambda: rule_brackets(run, F, cfg))
 
 
 def rule_scheme(run, F, cfg):
@@ -242,3 +243,29 @@ def rule_scanner(run, F, cfg):
         run.ob("C12.5.url-scanner-tables", "domain-always-from-psl", ok and dom,
                "DefaultResolver::get_host_domain sends every non-empty host through List.parse_domain_name (no "
                f"fast path that bypasses the public-suffix list); local helpers called: {calls}", site=dr.loc(0), config=cfg)
+
+
+def rule_brackets(run, F, cfg):
+    """parse_host: a ':' ends the host only outside an IPv6 literal: `[` opens, `]` closes"""
+    f = F.fn("url_parser::parser::Parser::parse_host")
+    run.touched(f)
+    upd = []
+    for b, i, st in f.statements():
+        if st["k"] == "assign" and not st["pl"]["p"] and f.varnames.get(st["pl"]["l"]) == "inside_square_brackets":
+            c = dominating_conditions(f, b, render=f.vexpr_operand)
+            upd.append((f.vexpr_rvalue(st["rv"]), c.get("$c")))
+    want = sorted([("false", None), ("true", ord("[")), ("false", ord("]"))], key=str)
+    run.ob("C12.5.url-scanner-tables", "host:bracket-state", sorted(upd, key=str) == want,
+           f"inside_square_brackets starts false, becomes true at '[' and false at ']' (updates {upd})", site=f.loc(0), config=cfg)
+    # the ':' arm breaks only when not inside brackets
+    sw = [(b, f.blocks[b]["t"]) for b in sorted(f.normal_blocks())
+          if f.blocks[b]["t"]["k"] == "switch" and f.vexpr_operand(f.blocks[b]["t"]["discr"]) == "$c"]
+    ok = False
+    for b, t in sw:
+        tgt = dict((v, tb) for v, tb in t["targets"])
+        if ord(":") in tgt:
+            nb = f.blocks[tgt[ord(":")]]["t"]
+            ok = nb["k"] == "switch" and f.vexpr_operand(nb["discr"]) in ("$inside_square_brackets", "Not($inside_square_brackets)")
+    run.ob("C12.5.url-scanner-tables", "host:colon-respects-brackets", ok,
+           "a ':' in the host scan is followed by the test of inside_square_brackets (port separator only outside `[..]`)",
+           config=cfg)
